@@ -283,7 +283,21 @@ pub fn gen_c03(tier: Tier, seed: u64) -> Case {
     } as usize;
     let mut program = g.create_initial(n_names);
     program.extend(gen_journal_program(&mut g, n, false));
-    let class = format!("{:?}{}", kind, if big { "-compressed-value" } else { "" });
+    // some keyspaces are flushed in the middle (their part of earlier batches is in tables, the
+    // other keyspaces' part only in the journal); the cut sweep covers the commits after that
+    let mut flushed = false;
+    if n_names >= 2 && g.r.chance(1, 3) {
+        let f = g.r.below(n_names as u64) as u8;
+        program.push(Op::Rotate { ks: f });
+        program.push(Op::WorkerStep);
+        if g.r.chance(1, 2) {
+            program.push(Op::WorkerStep);
+        }
+        let more = g.r.range(1, 3) as usize;
+        program.extend(gen_journal_program(&mut g, more, false));
+        flushed = true;
+    }
+    let class = format!("{:?}{}{}", kind, if big { "-compressed-value" } else { "" }, if flushed { "-one-keyspace-flushed" } else { "" });
     Case {
         prop: "C03".into(),
         seed,
@@ -369,12 +383,25 @@ fn open_state(dir: &Path, cfg: &Cfg, lz4: bool) -> Result<std::collections::BTre
 
 /// Builds the journal with the real code; returns (executor with history, batch end offsets)
 fn build_journal<'a>(case: &'a Case, live: &Path) -> Result<(Exec<'a>, Vec<(u64, usize)>), Violation> {
+    let (ex, bounds, _) = build_journal_floor(case, live)?;
+    Ok((ex, bounds))
+}
+
+/// Also returns the journal length at the last maintenance step (memtable flush): tables written
+/// then hold everything journaled below it, so only cuts at or above it are states a crash can leave.
+fn build_journal_floor<'a>(case: &'a Case, live: &Path) -> Result<(Exec<'a>, Vec<(u64, usize)>, u64), Violation> {
     let mut ex = Exec::new(&case.cfg, live.to_path_buf());
     ex.open()?;
     // (journal valid length, history index) after each acknowledged journaled op
     let mut bounds: Vec<(u64, usize)> = vec![];
+    let mut floor = 0u64;
     for (i, op) in case.program.iter().enumerate() {
         let info = ex.step(i, op)?;
+        if matches!(op, Op::Rotate { .. } | Op::WorkerStep | Op::Drain | Op::Quiesce | Op::MajorCompact { .. }) {
+            if let Some(j) = journal_path(live) {
+                floor = crate::fsutil::valid_len(&j);
+            }
+        }
         if info.acked && !matches!(op, Op::CreateKs { .. } | Op::DeleteKs { .. }) {
             if let Some(j) = journal_path(live) {
                 bounds.push((crate::fsutil::valid_len(&j), ex.acked()));
@@ -382,7 +409,7 @@ fn build_journal<'a>(case: &'a Case, live: &Path) -> Result<(Exec<'a>, Vec<(u64,
         }
     }
     ex.check_all()?;
-    Ok((ex, bounds))
+    Ok((ex, bounds, floor))
 }
 
 pub fn run_cuts(case: &Case, dir: PathBuf) -> Outcome {
@@ -390,7 +417,7 @@ pub fn run_cuts(case: &Case, dir: PathBuf) -> Outcome {
     crate::hooks::set_rotation_threshold(0);
     let live = dir.join("live");
     let mut stats = crate::exec::Stats::default();
-    let (mut ex, bounds) = match build_journal(case, &live) {
+    let (mut ex, bounds, floor) = match build_journal_floor(case, &live) {
         Ok(x) => x,
         Err(v) => {
             let mut o = Outcome::ok(stats, 0);
@@ -401,6 +428,9 @@ pub fn run_cuts(case: &Case, dir: PathBuf) -> Outcome {
     let history = ex.history.clone();
     let base_idx = history.len() - 1 - bounds.len();
     ex.close();
+    if floor > 0 {
+        stats.inc("layouts_with_flushed_keyspaces");
+    }
     let Some(jp) = journal_path(&live) else {
         let mut o = Outcome::ok(stats, 0);
         o.harness_error = Some("no journal file".into());
@@ -446,6 +476,9 @@ pub fn run_cuts(case: &Case, dir: PathBuf) -> Outcome {
                 stats.inc("cut_sweeps_exhaustive");
             }
             for c in all {
+                if c < floor {
+                    continue;
+                }
                 v.push((c, true));
                 v.push((c, false));
             }
